@@ -85,6 +85,17 @@ CHECKS = {
         "uri.NormalizeEscapedPath and pathParser - on every byte string of 0..3 (5) bytes with and without a leading slash. Other kernels named by the property are in C12, C16, C08. "
         "Whole-document totality, time/memory bounds and diagnostic positions are NOT decided.",
    design="4 C11", technique="symbolic execution of go/ssa + SMT, no-panic over all short inputs (kernel)"),
+ "C08": dict(
+   category="translation_validation",
+   cmd="python3-vt /verif/harness/C08/check_c08.py",
+   text="Translation validation with the SMT theory of regular expressions: ECMA-262 patterns are enumerated bounded-exhaustively by AST size (<= 4 quick / 5 thorough over 44 atoms incl. "
+        "\\d\\w\\s and negations, dot, \\c \\x \\u \\u{} octal and identity escapes, classes incl. []/[^]/[\\b], non-BMP literals; 8 quantifiers, groups, alternation, edge anchors); the REAL "
+        "ogenregex.Convert/Compile of /repo's tree is run on each; when the linear-time engine is chosen the ECMA pattern (Unicode-aware reading of its AST) and the converted RE2 text are "
+        "both turned into RegLan terms and z3 5.1 decides that the symmetric difference of the two search languages is empty for ALL subject strings (no length bound); a witness is replayed "
+        "on the real ogenregex engine and on regexp2 (ECMAScript|Unicode) and counts only when the SMT reference and regexp2 agree against ogen. Non-regular patterns (look-around, "
+        "back-references) are checked for engine choice; String() is checked natively; Convert's totality on all byte strings of 0..3 (5) bytes is decided by an SSA unit.",
+   note="SMT-LIB regex semantics of z3 5.1.0; the two pattern-to-RegLan translators written in this check (validated by witness replay on the real engines); the matching engines themselves are not executed symbolically; alphabet: code points <= 0x2FFFF",
+   design="4 C08", technique="SMT regular-expression equivalence (z3 seq/re theory) on Convert's real output + symbolic execution of Convert for totality"),
 }
 
 NA = {
@@ -102,8 +113,8 @@ def main():
         c = CHECKS[pid]
         checks.append({
             "property_id": pid,
-            "quick_cmd": "/verif/bin/symgo check %s --tier quick" % pid,
-            "thorough_cmd": "/verif/bin/symgo check %s --tier thorough" % pid,
+            "quick_cmd": (c["cmd"] + " quick") if "cmd" in c else "/verif/bin/symgo check %s --tier quick" % pid,
+            "thorough_cmd": (c["cmd"] + " thorough") if "cmd" in c else "/verif/bin/symgo check %s --tier thorough" % pid,
             "evidence_file": "/verif/evidence/%s.json" % pid,
             "replay_cmd_template": "sh {path}/replay.sh",
             "engine": "symgo",
